@@ -230,11 +230,11 @@ func (r *Report) Finish(verifDir, tier string, seed int64, start time.Time, stat
 	var samples []*Obligation
 	perRule := map[string]int{}
 	for _, o := range r.Obls {
-		if o.Status != OK || perRule[o.Rule] < 2 {
+		if o.Status != OK || perRule[o.Rule] < 60 {
 			samples = append(samples, o)
 			perRule[o.Rule]++
 		}
-		if len(samples) >= 40 {
+		if len(samples) >= 200 {
 			break
 		}
 	}
